@@ -47,6 +47,16 @@ func ruleGPred(c *Ctx) {
 		}
 		got := map[string]bool{}
 		for _, d := range paths {
+			if d.EndKind == "return" && len(d.Ret.Results) == 2 {
+				// the estimate may hand the finalised copy to the checked sibling: both results of
+				// IsFeePaidEnough(subject, fees) returned as they are
+				r0, r1 := atomName(d.Env.Term(d.Ret.Results[0])), atomName(d.Env.Term(d.Ret.Results[1]))
+				call := "(*bt.Tx).IsFeePaidEnough(" + subject + ", p1)"
+				if name == "EstimateIsFeePaidEnough" && r0 == call+"#0" && r1 == call+"#1" && len(d.Conds) == 1 {
+					got["delegates"] = true
+					continue
+				}
+			}
 			if returnDesc(d) != "return nil" {
 				continue
 			}
@@ -64,12 +74,15 @@ func ruleGPred(c *Ctx) {
 			}
 			got[strings.Join(cs, " && ")+" => "+rs] = true
 		}
-		want := setOf("-IN +OUT > 0 => false", "IN -OUT >= 0 => -FEE +IN -OUT >= 0")
+		want := setOf("-IN +OUT -1 >= 0 => false", "IN -OUT >= 0 => -FEE +IN -OUT >= 0")
 		same := len(got) == len(want)
 		for k := range got {
 			if !want[k] {
 				same = false
 			}
+		}
+		if len(got) == 1 && got["delegates"] {
+			same = true // IsFeePaidEnough itself is decided above, on the same formula
 		}
 		c.Check(same, "G-pred", "Tx."+name, fn.Pos(), "on "+subject+": false when IN < OUT, else IN-OUT >= FEE, with FEE = feesPaid(SizeWithTypes).TotalFeePaid: "+strings.Join(keysSorted(got), " | "),
 			fmt.Sprintf("%s's verdict changed: {%s}, specified {%s} (IN/OUT/FEE taken on %s)", name, strings.Join(keysSorted(got), " | "), strings.Join(keysSorted(want), " | "), subject))
